@@ -190,10 +190,8 @@ func mgrTree(d *memDCS) map[string]string {
 
 func mgrFailed(app *App) map[string]int64 {
 	r := map[string]int64{}
-	for h, t := range app.t.m[NodeFailedAt] {
-		if !t.IsZero() {
-			r[h] = t.UnixNano() - vEpoch
-		}
+	for _, h := range vTimingHosts(app.t, NodeFailedAt) {
+		r[h] = app.t.Get(NodeFailedAt, h).UnixNano() - vEpoch
 	}
 	return r
 }
